@@ -71,9 +71,8 @@ func (s sstep) String() string {
 		lib.I(int64(s.mode)), lib.I(int64(s.k)), lib.U(s.x), lib.U(s.y), lib.U(s.z), lib.I(int64(s.g)), lib.I(int64(s.pause)))
 }
 
-func t64OfNow() uint64 { return t64num(ntp.Time64FromTime(time.Now().UTC())) }
-
-func (d *lsnDrv) runSlowHistory(fl *txFailLog, steps []sstep) {
+func (d *lsnDrv) runSlowHistory(steps []sstep) {
+	fl := d.fl
 	ss := make([]string, len(steps))
 	for i, s := range steps {
 		ss[i] = s.String()
@@ -84,7 +83,6 @@ func (d *lsnDrv) runSlowHistory(fl *txFailLog, steps []sstep) {
 	server.VerifResetTSS()
 	fl.take()
 	reps := make([]lsnRep, len(steps))
-	crecv := make([]uint64, len(steps))
 	var echoAt []int64 // harness clock (ns) just before each SCMP echo request was sent
 	for i := 0; i < len(steps) && !d.lost; {
 		j := i
@@ -136,8 +134,7 @@ func (d *lsnDrv) runSlowHistory(fl *txFailLog, steps []sstep) {
 		// emptied from more than one CPU): a reply is matched to its request by its origin, which is the
 		// request's transmit field (basic) or its receive field (interleaved)
 		for n := i; n < j; n++ {
-			rep, ok := d.recv(steps[i].lstepS)
-			at := t64OfNow()
+			rep, at, ok := d.recv(steps[i].lstepS)
 			if !ok {
 				break
 			}
@@ -160,31 +157,16 @@ func (d *lsnDrv) runSlowHistory(fl *txFailLog, steps []sstep) {
 			}
 			r := &reps[m]
 			r.got = true
-			crecv[m] = at
+			r.crx = at
 			r.ref, r.org, r.rx, r.tx = be64(rep[16:]), org, be64(rep[32:]), be64(rep[40:])
 		}
 		i = j
 	}
 	time.Sleep(30 * time.Millisecond) // the record of the last exchange
-	fails := fl.take()
+	attributeUnread(reps, fl.take(), echoAt)
 	unread := make([]bool, len(steps))
-	for _, l := range fails {
-		// the record belongs to the last thing the listener loop did before it: an NTP exchange (its
-		// software transmit time is in the reply) or an SCMP echo (sent after the harness clock reading)
-		at, atTime := -1, int64(-1)
-		for i := range steps {
-			if t := nsOf64(t64of(reps[i].ref)); reps[i].got && t <= l && t > atTime {
-				at, atTime = i, t
-			}
-		}
-		for _, t := range echoAt {
-			if t <= l && t > atTime {
-				at, atTime = -1, t
-			}
-		}
-		if at >= 0 {
-			unread[at] = true
-		}
+	for i := range reps {
+		unread[i] = reps[i].unread
 	}
 	// the observations are listed in the order in which the listener goroutine handled the requests:
 	// the order of their kernel receive stamps (exchanges without a reply last)
@@ -222,8 +204,7 @@ func (d *lsnDrv) runSlowHistory(fl *txFailLog, steps []sstep) {
 		if r.got && !inter && s.mode == 1 && s.k >= 0 && s.k < i && unread[s.k] {
 			nDropped++
 		}
-		outs = append(outs, lib.L(lib.I(s.ident()), lib.I(s.sock()), lib.U(r.qorg), lib.U(r.qrx), lib.U(r.qtx), lib.Bool(r.got),
-			lib.U(r.org), lib.U(r.rx), lib.U(r.tx), lib.U(r.ref), lib.U(crecv[i]), lib.Bool(unread[i])))
+		outs = append(outs, wireRow(s.lstepS, r))
 	}
 	var tags []string
 	add := func(c bool, t string) {
@@ -239,7 +220,8 @@ func (d *lsnDrv) runSlowHistory(fl *txFailLog, steps []sstep) {
 	add(steps[0].lsn == 1, "scion")
 	add(steps[0].lsn == 0, "ip")
 	add(nAfterLate > 0 && nLate > 0, "nt")
-	lsnEmit("CASE", "lsn.slowlink", strings.Join(tags, ","), args, lib.L(outs...))
+	// one client socket = one listener goroutine: every report is attributed, nothing is tolerated
+	lsnEmit("CASE", "lsn.slowlink", strings.Join(tags, ","), args, lib.V(lib.L(outs...), "1", "0"))
 }
 
 // one client socket per history; bursts of 2..6 requests, then the replies of the burst are
@@ -318,12 +300,11 @@ func parseSlowScript(sv string) []sstep {
 func lsnSlowChild(a lib.Args) {
 	lout = bufio.NewWriterSize(os.Stdout, 1<<20)
 	defer lout.Flush()
-	fl := &txFailLog{}
-	d := newLsnDrv(slog.New(fl))
+	d := newLsnDrv()
 	if a.Replay != "" {
 		for _, l := range lib.ReplayLines(a.Replay) {
 			if l[0] == "lsn.slowlink" && !d.lost {
-				d.runSlowHistory(fl, parseSlowScript(l[2]))
+				d.runSlowHistory(parseSlowScript(l[2]))
 			}
 		}
 		return
@@ -334,6 +315,6 @@ func lsnSlowChild(a lib.Args) {
 		n = 60
 	}
 	for i := 0; i < n && !d.lost; i++ {
-		d.runSlowHistory(fl, genSlowHistory(r.Fork(), 4+r.Intn(5)))
+		d.runSlowHistory(genSlowHistory(r.Fork(), 4+r.Intn(5)))
 	}
 }
